@@ -40,6 +40,7 @@ class Opts:
         self.before_first = True
         self.after_last = True
         self.fractional = False
+        self.min_launch_q = 0  # minimal launch-call duration in quanta (0 allows zero-duration runtime calls)
         self.bwd_thread = False
         self.__dict__.update(kw)
 
@@ -63,7 +64,7 @@ def gen_rank(rng: random.Random, o: Opts, rank: int = 0) -> List[Dict[str, Any]]
         if t1 - t0 < q:
             return
         lts = t0 + q * rng.randint(0, max(0, (t1 - t0) // q - 1))
-        ldur = min(q * rng.randint(0, 2), t1 - lts)
+        ldur = min(q * rng.randint(o.min_launch_q, 2), t1 - lts)
         c = new_corr()
         r = rng.random()
         if r < o.p_sync:
